@@ -69,6 +69,17 @@ package ice
 //@   site call isFamilyAllowed#1 assert unscoped-rule-uses-external-family: !hasLocalAddr && ruleMapping.cidr == nil ==> targetLocalIPv4 == isExtIPv4
 //@   site call addImplicitMapping#1 assert files-under-target-family: arg1 == extIP && arg2 == targetLocalIPv4 && arg3 == hasLocalAddr && arg4 == localAddr
 //@   ensures error-adds-nothing-reported: err != nil ==> !result0
+//@   ghostvar badShape bool = false
+//@   ghostvar badIP bool = false
+//@   ghostvar allowedNow bool = false
+//@   site call Split#1 ghost badShape := badShape || len(result) != 1
+//@   site call validateIPString#1 assert validates-the-single-address-of-the-entry: arg0 == ipPair[0]
+//@   site call validateIPString#1 ghost badIP := badIP || result2 != nil
+//@   site call isFamilyAllowed#1 ghost allowedNow := result
+//@   site call addImplicitMapping#1 assert only-an-external-address-of-an-allowed-family-is-filed: allowedNow
+//@   site call isFamilyAllowed#1 assert a-cidr-scoped-rule-takes-the-family-of-its-cidr: !hasLocalAddr && ruleMapping.cidr != nil ==> targetLocalIPv4 == ipIs4(ruleMapping.cidr.IP.base, ruleMapping.cidr.IP.off, len(ruleMapping.cidr.IP))
+//@   loop 1 invariant no-malformed-entry-passed-so-far: !badShape && !badIP
+//@   ensures an-external-entry-with-a-prefix-length-or-a-bad-address-rejects-the-rule: badShape || badIP ==> err != nil
 
 // Application to host candidates on a UDP mux: replace substitutes (an empty list
 // drops the candidate), append adds (an empty list changes nothing), no matching
@@ -148,6 +159,7 @@ package ice
 //@ func validateIPString
 //@   props C19
 //@   ensures the-family-is-that-of-the-address-handed-back: result2 == nil ==> result1 == ipIs4(result0.base, result0.off, len(result0))
+//@   ensures an-accepted-literal-yields-its-address-and-a-rejected-one-none: (result2 == nil) == (result0 != nil)
 
 // A rule without external addresses is intentional: it still takes part in the lookup (replace drops the
 // candidate, append leaves it alone), so it shadows less specific catch-alls like any other rule.
